@@ -492,6 +492,11 @@ fn ref_decode(outb: Outb, w: &[u8]) -> Option<(Dest, Vec<u8>)> {
             }
             let colon = target.iter().rposition(|&b| b == b':')?;
             let port: u16 = std::str::from_utf8(&target[colon + 1..]).ok()?.parse().ok()?;
+            // authority = reg-name ":" port | "[" IPv6 "]" ":" port. A reg-name with ':' or brackets in it has no
+            // single reading (first colon or last? literal or name?): next hops split it differently
+            if target[..colon].iter().any(|&b| b == b':' || b == b'[' || b == b']') {
+                return None;
+            }
             Some((Dest::Host(target[..colon].to_vec(), port), rest.to_vec()))
         }
         Outb::Socks5 => {
